@@ -50,14 +50,16 @@ CanBalance(rf, az) ==
        /\ Cardinality({ z \in Z : ZoneCap(az, z) >= q + 1 }) >= r
 
 (* ---- C18: placement of one series, judged on an observed replica list ---- *)
-(* reps: observed replica list for the endpoint list as configured; perms: the replica lists  *)
-(* observed for the same endpoint *set* listed in other orders; again: a second call.         *)
+(* reps: replica list observed for the endpoint list as configured; perms: replica lists     *)
+(* observed for the same series with the same endpoint *set* listed in other orders; again:  *)
+(* lists observed when asking the same hashring again.  (A harness may log only the lists    *)
+(* that differ from reps; the clauses read the same.)                                         *)
 C18Clauses(reps, perms, again, az, rf, zoned) ==
-    (IF HNoDup(reps) /\ Len(reps) = rf THEN {} ELSE {"replicas-pairwise-distinct"})
+    (IF HNoDup(reps) THEN {} ELSE {"replicas-pairwise-distinct"})
     \cup (IF HSeqRange(reps) \subseteq DOMAIN az THEN {} ELSE {"replicas-are-configured-endpoints"})
     \cup (IF \A k \in DOMAIN perms : perms[k] = reps THEN {} ELSE {"independent-of-endpoint-order"})
-    \cup (IF again = reps THEN {} ELSE {"depends-only-on-tenant-labels-endpoints"})
-    \cup (IF zoned /\ HSeqRange(reps) \subseteq DOMAIN az /\ CanBalance(rf, az)
+    \cup (IF \A k \in DOMAIN again : again[k] = reps THEN {} ELSE {"depends-only-on-tenant-labels-endpoints"})
+    \cup (IF zoned /\ Len(reps) = rf /\ HSeqRange(reps) \subseteq DOMAIN az /\ CanBalance(rf, az)
              /\ ~ZoneBalanced(HSeqRange(reps), az)
           THEN {"zone-counts-differ-by-at-most-one"} ELSE {})
 
